@@ -225,6 +225,16 @@ def oracle_formats(case):
             a["x"], a["y"], a["z"] = round(float(q[0]), 3), round(float(q[1]), 3), round(float(q[2]), 3)
         info["moved"] = True
         info["wide-coordinates"] = bool(Q.min() <= -100.0 or Q.max() >= 1000.0)
+    if case.get("offset"):
+        # the format relation composed with a renumbering: author numbers shifted by a constant (leader sequences and
+        # tags are numbered below zero), the same numbers written in both formats
+        nums = [a["resseq"] + case["offset"] for a in atoms]
+        if min(nums) < -999 or max(nums) > 9999:
+            info["skipped"] = True
+            return []
+        for a, n in zip(atoms, nums):
+            a["resseq"] = n
+        info["negative-numbers"] = min(nums) < 0
     os.makedirs(WORK_DIR, exist_ok=True)
     base = os.path.join(WORK_DIR, f"c05_{os.getpid()}")
     results = {}
@@ -366,6 +376,8 @@ def classify(case):
             labs.append("atom-order-in-file-with-alternate-locations")
         if info.get("wide-coordinates"):
             labs.append("coordinate<=-100-or>=1000")
+        if info.get("negative-numbers"):
+            labs.append("formats-with-negative-author-numbers")
     if info.get("undecided"):
         labs.append("undecided-margin")
     if info.get("skipped"):
@@ -399,7 +411,8 @@ def st_formats(files):
 
     comp = st.sampled_from([0.0, 0.0, -150.0, -300.0, -700.0, 300.0, 900.0, 1500.0])
     return st.fixed_dictionaries({"kind": st.just("formats"), "file": st.sampled_from(files), "null": st.sampled_from(["?", "."]),
-                                  "rot": st.one_of(st.none(), st.integers(0, 23)), "shift": st.lists(comp, min_size=3, max_size=3)})
+                                  "rot": st.one_of(st.none(), st.integers(0, 23)), "shift": st.lists(comp, min_size=3, max_size=3),
+                                  "offset": st.sampled_from([0, 0, -210, -500, -60, 1000])})
 
 
 def st_altloc(files):
